@@ -136,12 +136,25 @@ def extract_script(fmt_arg=None, default_format="npy", env=False, rounds=1):
         def __init__(self, path, *a, **k):
             self.path = path
 
-        def __enter__(self):
+        def acquire(self, timeout=None, poll_interval=0.05, **k):
+            # with a time-out the environment may answer "still held after that long" (only under the symbolic
+            # environment: one more alternative script)
+            if env and timeout is not None and timeout >= 0:
+                _n = sum(1 for o in log if o[0] in ("acquire", "acquire-timeout"))
+                if bool(symx.SymBool(z3.Bool("acquire_times_out[%d]" % _n))):
+                    log.append(("acquire-timeout", self.path))
+                    raise filelock.Timeout(self.path)
             log.append(("acquire", self.path))
             return self
 
-        def __exit__(self, *a):
+        def release(self, force=False):
             log.append(("release", self.path))
+
+        def __enter__(self):
+            return self.acquire()
+
+        def __exit__(self, *a):
+            self.release()
             return False
 
     class RecPio(PyramidIO):
@@ -314,7 +327,7 @@ def updater_ts(scripts, split_write=True, rounds=1):
     U = len(scripts)
     R = rounds
     scripts = [sc if sc and isinstance(sc[0], list) else [sc] for sc in scripts]
-    locks = sorted({op[1] for alts in scripts for sc in alts for op in sc if op[0] in ("acquire", "release")})
+    locks = sorted({op[1] for alts in scripts for sc in alts for op in sc if op[0] in ("acquire", "release", "acquire-timeout")})
     files = sorted({op[1] for alts in scripts for sc in alts for op in sc if op[0] in ("read", "write")})
     for li in range(len(locks)):
         ts.var("lock%d" % li, 3, 0)
@@ -342,6 +355,12 @@ def updater_ts(scripts, split_write=True, rounds=1):
                     li = locks.index(r)
                     ts.t(lab % "acquire", "u%d" % u, (lambda at, li: (lambda s: z3.And(at(s), s["lock%d" % li] == 0)))(at, li),
                          (lambda u, pc, li: (lambda s: {"pc%d" % u: bmc.bv(pc + 1, 6), "lock%d" % li: bmc.bv(u + 1, 3)}))(u, pc, li))
+                elif kind == "acquire-timeout":
+                    # the environment's answer "the lock was still held when the time-out expired": possible only while it is held
+                    li = locks.index(r)
+                    ts.probe_guards.append((u, a, pc, (lambda li: (lambda s: s["lock%d" % li] != 0))(li)))
+                    ts.t(lab % "acquire-timeout", "u%d" % u, (lambda at, li: (lambda s: z3.And(at(s), s["lock%d" % li] != 0)))(at, li),
+                         (lambda u, pc: (lambda s: {"pc%d" % u: bmc.bv(pc + 1, 6)}))(u, pc))
                 elif kind == "release":
                     li = locks.index(r)
                     # releasing removes the marker file if it is still this updater's; a marker re-created by somebody else is removed too (SoftFileLock unlinks the path)
@@ -437,25 +456,40 @@ def replay(trace, n_updaters, fmt_args, old_clock=(), rounds=1, caller=None):
     d = tempfile.mkdtemp(prefix="verif-c10-")
     held = {}
     monitor = {"torn_reads": 0, "writing": set()}
+    planned_timeouts = {}
+    for label, actor in trace:
+        if label.startswith("acquire-timeout"):
+            planned_timeouts[actor] = planned_timeouts.get(actor, 0) + 1
 
     class SchedLock:
         def __init__(self, path, *a, **k):
             self.path = path
 
-        def __enter__(self):
+        def acquire(self, timeout=None, poll_interval=0.05, **k):
+            if timeout is not None and timeout >= 0 and planned_timeouts.get(S.me(), 0) > 0:
+                # the solver's run has this updater's acquire time out: granted only while the lock file exists
+                planned_timeouts[S.me()] -= 1
+                S.op("acquire-timeout", lambda: os.path.exists(self.path))
+                raise filelock.Timeout(self.path)
             S.op("acquire", lambda: not os.path.exists(self.path))
             with open(self.path, "w") as f:
                 f.write(S.me())
             held[self.path] = S.me()
             return self
 
-        def __exit__(self, *a):
+        def release(self, force=False):
             S.op("release")
             held.pop(self.path, None)
             try:
                 os.unlink(self.path)
             except OSError:
                 pass
+
+        def __enter__(self):
+            return self.acquire()
+
+        def __exit__(self, *a):
+            self.release()
             return False
 
     class ReplayPath:
@@ -657,7 +691,7 @@ def check_updaters(run, n, rounds=1, caller=None, epilogue=()):
             run.ob("%s.twin" % name, "twin-sat", "E3:bmc+detsched", "a completing interleaving exists; the REAL update_image keeps all %d contributions under it" % (n * rounds), queries=1, solver_s=dt)
         else:
             run.error("%s.twin" % name, "real run under a completing model interleaving lost a contribution: %s" % (obs,))
-    nolock = [[[op for op in sc if op[0] not in ("acquire", "release", "probe", "unlink")] for sc in alts][:1] for alts in scripts]
+    nolock = [[[op for op in sc if op[0] not in ("acquire", "release", "probe", "unlink", "acquire-timeout")] for sc in alts][:1] for alts in scripts]
     ts2 = updater_ts(nolock, rounds=rounds)
     U2 = bmc.Unrolled(ts2, ts2.max_steps)
     f2 = U2.final()
